@@ -194,6 +194,34 @@ Proof.
   + apply cover_iff. right; right. exists c, d2, w2. split; [|split; [by rewrite (effw_same s s')|by apply Hgd] ].
     eapply fsat_keep_rest; [exact Hst|exact Hs|exact Hf|congruence].
 Qed.
+Lemma cv_fire_gen s a fr0 post e0 rest e : stacks s !! a = Some (fr0 :: rest) -> relw fr0 = false -> cover s e = true ->
+  cover (setstack (setev s e0 {| fired := true; wakers := [] |}) a (wake_frames (rev (getev s e0).(wakers)) ++ post ++ rest)) e = true.
+Proof.
+  intros Hst Hr0. set (ws := rev (wakers (getev s e0))). set (s0 := setev s e0 _). set (s' := setstack _ _ _).
+  assert (Hs : stacks s' = <[a := (wake_frames ws ++ post) ++ rest]> (stacks s)) by (subst s' s0; rewrite <- app_assoc; solve_stacks).
+  assert (Hnw : forall w, np (is_wake w) s <= np (is_wake w) s').
+  { intros w. eapply np_mono; [exact Hst|exact Hs|]. rewrite !cntf_app. cbn. destruct fr0; try discriminate Hr0; cbn; lia. }
+  assert (Hu : forall e w, unfreg s e w = true -> unfreg s' e w = true \/ posb (np (is_wake w) s') = true).
+  { intros e' w Hu. destruct (decide (e' = e0)) as [->|Hne].
+    - right. unfold unfreg in Hu. apply andb_true_iff in Hu as [_ Hin]. apply bool_decide_eq_true in Hin.
+      eapply (np_pos_wake s' a). eapply fsat_new; [exact Hst|exact Hs|]. apply elem_of_app. left. apply elem_of_app. left. apply in_wake_frames. subst ws. by apply elem_of_rev.
+    - left. unfold unfreg in *. change (getev s' e') with (getev s0 e'). subst s0. by rewrite getev_setev_ne. }
+  assert (Hgd : forall e d, gd s e d = true -> gd s' e d = true).
+  { intros e' d. unfold gd. rewrite !orb_true_iff. intros [[H|H]|H]; [|left; right; eapply posb_mono; [apply Hnw|done]|by right].
+    destruct (Hu _ _ H); [by left; left|by left; right]. }
+  rewrite (cover_iff s e).
+  assert (Heq : forall w, effq s' w = effq s w) by (intros w; by apply effq_same).
+  intros [(Hf & w & Hin & He)|[(c & w & Hf & He)|(c & d2 & w2 & Hf & He & Hg)]].
+  + destruct (decide (e = e0)) as [->|Hne].
+    * apply cover_iff. right; left. exists a, w. split; [|by rewrite Heq].
+      eapply fsat_new; [exact Hst|exact Hs|]. apply elem_of_app. left. apply elem_of_app. left. apply in_wake_frames. subst ws. by apply elem_of_rev.
+    * apply cover_iff. left. change (getev s' e) with (getev s0 e). subst s0. rewrite getev_setev_ne by done.
+      split; [done|]. exists w. split; [done|by rewrite Heq].
+  + apply cover_iff. right; left. exists c, w. split; [|by rewrite Heq].
+    eapply fsat_keep_rest; [exact Hst|exact Hs|exact Hf|intros <-; discriminate Hr0].
+  + apply cover_iff. right; right. exists c, d2, w2. split; [|split; [by rewrite (effw_same s s')|by apply Hgd] ].
+    eapply fsat_keep_rest; [exact Hst|exact Hs|exact Hf|intros <-; discriminate Hr0].
+Qed.
 
 (* every other step: the popped frames are no waker calls (or calls of wakers that do not reach the task); registrations, drain
    wakers and double wakers are only added *)
@@ -202,7 +230,7 @@ Definition nocovq (s : state) (fr : frame) : bool :=
 Lemma cv_plain s s' a pop rest new e :
   stacks s !! a = Some (pop ++ rest) -> stacks s' = <[a := new]> (stacks s) -> (forall fr, fr ∈ rest -> fr ∈ new) ->
   (forall fr, fr ∈ pop -> nocovq s fr = true) ->
-  (forall e w, (getev s e).(fired) = false -> w ∈ (getev s e).(wakers) -> (getev s' e).(fired) = false /\ w ∈ (getev s' e).(wakers)) ->
+  (forall e w, (forall c, w <> WTask c) -> (getev s e).(fired) = false -> w ∈ (getev s e).(wakers) -> (getev s' e).(fired) = false /\ w ∈ (getev s' e).(wakers)) ->
   (forall d, getdw s' d = getdw s d) -> (forall k, getdbl s k <> None -> getdbl s' k = getdbl s k) ->
   cover s e = true -> cover s' e = true.
 Proof.
@@ -217,13 +245,15 @@ Proof.
   assert (Hgd : forall d, gd s e d = true -> gd s' e d = true).
   { intros d. unfold gd. rewrite !orb_true_iff. intros [[H|H]|H].
     + left; left. unfold unfreg in *. apply andb_true_iff in H as [H1 H2]. apply negb_true_iff in H1. apply bool_decide_eq_true in H2.
-      destruct (Hev _ _ H1 H2) as [H3 H4]. rewrite H3. cbn. by apply bool_decide_eq_true.
+      assert (Hnt : forall c, WDrain d <> WTask c) by done.
+      destruct (Hev _ _ Hnt H1 H2) as [H3 H4]. rewrite H3. cbn. by apply bool_decide_eq_true.
     + left; right. apply posb_true, np_pos_fsat in H as (c & fr & Hf & Hp). destruct fr; try done.
       cbn in Hp. apply bool_decide_eq_true in Hp as ->.
       apply posb_true, np_pos_fsat. exists c, (FWake (WDrain d)). split; [by apply Hk|]. cbn. by apply bool_decide_eq_true.
     + right. unfold dw_woken in *. by rewrite Hdw. }
   rewrite (cover_iff s e). intros [(Hf & w & Hin & He)|[(c & w & Hf & He)|(c & d & w & Hf & He & Hg)]]; apply cover_iff.
-  - left. destruct (Hev _ _ Hf Hin) as [? ?]. split; [done|]. exists w. split; [done|by apply Ht].
+  - left. assert (Hnt : forall c, w <> WTask c) by (intros c ->; discriminate He).
+    destruct (Hev _ _ Hnt Hf Hin) as [? ?]. split; [done|]. exists w. split; [done|by apply Ht].
   - right; left. exists c, w. split; [|by apply Ht]. apply Hk; [|done]. cbn. destruct w; try done; cbn in *; by rewrite He.
   - right; right. exists c, d, w. split; [by apply Hk|]. split; [by apply Htw|by apply Hgd].
 Qed.
